@@ -569,6 +569,13 @@ func (c *c09bCase) drain(asset, pool uint64) {
 	c.proj()
 }
 
+// the whale lends again: liquidity returns to a pool
+func (c *c09bCase) refill(asset, pool uint64, amt int64) {
+	class, _, _ := execMsg(c.w.a, c.ctx, lendtypes.NewMsgLend(c.w.whale.String(), asset, sdk.NewCoin(c.w.idDenom[asset], sdk.NewInt(amt)), pool, c.w.app))
+	c.tr.p("op refill %d %d %d %s", asset, pool, amt, class)
+	c.proj()
+}
+
 func (c *c09bCase) skip(seconds int64) {
 	c.now = c.now.Add(time.Duration(seconds) * time.Second)
 	c.height++
@@ -980,6 +987,7 @@ func TestC09Borrow(t *testing.T) {
 		func(ci int) { c09bBridgeCase(w, tr, ci, 0) },
 		func(ci int) { c09bBridgeCase(w, tr, ci, 1) },
 		func(ci int) { c09bBridgeCase(w, tr, ci, 2) },
+		func(ci int) { c09bPoolShort(w, tr, ci) },
 		func(ci int) { c09bGovBatch(w, tr, ci, 1<<63) },
 		func(ci int) { c09bGovBatch(w, tr, ci, ^uint64(0)) },
 		func(ci int) { c09bGovBatch(w, tr, ci, 1<<63-1) },
@@ -1034,6 +1042,33 @@ func c09bGovBatch(w *c09bWorld, tr *tracer, ci int, b uint64) {
 	c.govBatch(b)
 	c.setPrice(w.assets[1], w.normal[w.assets[1]]/2, true) // collateral A2 halves: both borrows far above their thresholds
 	for i := 0; i < 6; i++ {
+		if !c.block() {
+			return
+		}
+	}
+}
+
+// directed (finding C09-F5): an unsafe borrow whose pool has lent most of the collateral asset out.  User A
+// lends 100 A2 in pool 1 and borrows A1 against it; the whale withdraws its A2 from pool 1; user B borrows 63 of
+// the remaining 100 A2 against A1.  The A2 price halves: A's borrow is far above its threshold, liquidation is
+// whitelisted with the Dutch auction on, prices are active, no control is on - but pool 1 holds 37 A2 < the 100
+// recorded as A's collateral, UpdateLockedBorrows fails in every block.  When liquidity returns the next
+// visit seizes the borrow.
+func c09bPoolShort(w *c09bWorld, tr *tracer, ci int) {
+	c := c09bNewCase(w, tr, ci, "pool-short", 2)
+	if c.newBorrow(0, 100000000, 900, false) == 0 {
+		return
+	}
+	c.drain(w.assets[1], w.pools[0])
+	c.newBorrow(2, 50000000, 900, false)
+	c.setPrice(w.assets[1], w.normal[w.assets[1]]/2, true)
+	for i := 0; i < 8; i++ {
+		if !c.block() {
+			return
+		}
+	}
+	c.refill(w.assets[1], w.pools[0], 1000000000)
+	for i := 0; i < 3; i++ {
 		if !c.block() {
 			return
 		}
